@@ -225,6 +225,19 @@ func runC16(c *mon.Ctx) {
 }
 
 func c16decode(c *mon.Ctx, b []byte, cls string) {
+	if len(b) == 0 {
+		// the empty byte string as a nil slice: the reducing decoders give 0, the canonical one accepts 0
+		var z1, z2, z3, z4 fr.Element
+		z1.SetUint64(5)
+		z2, z3, z4 = z1, z1, z1
+		z1.SetBytes(nil)
+		z2.SetBytesLE(nil)
+		_, err3 := z3.SetBytesLECanonical(nil)
+		_, err4 := z4.SetInterface([]byte(nil))
+		if !z1.IsZero() || !z2.IsZero() || err3 != nil || !z3.IsZero() || err4 != nil || !z4.IsZero() {
+			c.Fail("wrong-value/nil-slice", fmt.Sprintf("decoding the empty byte string given as a nil slice: SetBytes zero=%v SetBytesLE zero=%v SetBytesLECanonical err=%v SetInterface err=%v", z1.IsZero(), z2.IsZero(), err3, err4), nil)
+		}
+	}
 	if len(b)%3 == 2 || len(b) == 32 || len(b) > 64 {
 		c16readOnly(c, b)
 	}
